@@ -123,7 +123,7 @@ pub const ALL_INSTRUCTIONS: [Instruction; 56] = [
 
 /// Fill one cell with a symbolic value of tag `tag` whose links point to cells < `d.n_cells`.
 /// `max_len`: maximum length of list-like values.
-pub fn push_any_cell_of<N: Nondet>(n: &mut N, d: &mut BoundedData, tag: GarnishDataType, floats: bool, max_len: usize) -> usize {
+pub fn push_any_cell_of<N: Nondet, const C: usize>(n: &mut N, d: &mut BoundedData<C>, tag: GarnishDataType, floats: bool, max_len: usize) -> usize {
     let below = d.n_cells;
     let mut c = Cell::of(tag);
     match tag {
@@ -229,7 +229,7 @@ fn sliceable(t: GarnishDataType) -> bool {
 }
 
 /// validity of cell i (see module doc); pure, no nondeterminism
-pub fn cell_valid(d: &BoundedData, i: usize, max_len: usize) -> bool {
+pub fn cell_valid<const C: usize>(d: &BoundedData<C>, i: usize, max_len: usize) -> bool {
     let c = d.cells[i];
     match c.tag {
         GarnishDataType::Invalid => false,
@@ -260,7 +260,7 @@ pub fn cell_valid(d: &BoundedData, i: usize, max_len: usize) -> bool {
 
 /// k cells, each with a symbolic tag out of all 20, symbolic payload and links; pools pre-filled with
 /// symbolic content; constrained by `cell_valid` only (state first, one assumption after)
-pub fn any_state<N: Nondet>(n: &mut N, k: usize, floats: bool, max_len: usize) -> BoundedData {
+pub fn any_state<N: Nondet, const C: usize>(n: &mut N, k: usize, floats: bool, max_len: usize) -> BoundedData<C> {
     let mut d = BoundedData::new();
     if max_len > 0 {
         let mut j = 0;
@@ -301,7 +301,7 @@ pub fn any_state<N: Nondet>(n: &mut N, k: usize, floats: bool, max_len: usize) -
 }
 
 /// draw the scripted host's answers and values up front
-pub fn script_host<N: Nondet>(n: &mut N, d: &mut BoundedData, calls: usize) {
+pub fn script_host<N: Nondet, const C: usize>(n: &mut N, d: &mut BoundedData<C>, calls: usize) {
     let mut i = 0;
     while i < calls && i < HOST {
         d.answers[i] = n.bool();
@@ -315,10 +315,10 @@ pub fn is_false_tag(t: GarnishDataType) -> bool {
 }
 
 /// top of the register stack
-pub fn top(d: &BoundedData) -> usize {
+pub fn top<const C: usize>(d: &BoundedData<C>) -> usize {
     d.regs[d.n_regs - 1]
 }
 
-pub fn tag_at(d: &BoundedData, addr: usize) -> GarnishDataType {
+pub fn tag_at<const C: usize>(d: &BoundedData<C>, addr: usize) -> GarnishDataType {
     d.get_data_type(addr).unwrap()
 }
